@@ -11,6 +11,9 @@ from ..gfi.common import run_for
 def run(chk, prog):
     n, obs = run_for(chk, prog, "C05", ALL)
     chk.floor("obligations tagged C05", n, 80)
+    # "any program" includes partially applied closures (shared with C32)
+    from ._share import take
+    take(chk, prog, "C32", lambda o: ".edit" in o["instance"] or ".update" in o["instance"], "closure obligations on the edit path (from C32)", 2)
     chk.explanation = "structural-induction obligations for C05: update weights telescope (WEIGHT-UPD), new args stored, BWD-OLDVALUES; each inner GFI call is an opaque atom (induction hypothesis), the derived provenance terms / linear forms are compared with the oracle table"
     for o in [o for o in obs.items if "C05" in o["props"]][:6]:
         chk.sample({"rule": o["rule"], "instance": o["instance"], "derived": o["derived"][:200], "expected": o["expected"][:160]})
